@@ -8,10 +8,13 @@ import (
 	"encoding/binary"
 	"encoding/hex"
 	"fmt"
+	"strconv"
 	"strings"
 	"testing"
 
 	"github.com/libsv/go-bk/bec"
+	"github.com/libsv/go-bk/bip32"
+	"github.com/libsv/go-bk/chaincfg"
 	"github.com/libsv/go-bt/v2"
 	"github.com/libsv/go-bt/v2/bscript"
 	"pgregory.net/rapid"
@@ -345,6 +348,21 @@ func checkDerive(ctx *pbt.Ctx, c Derive) error {
 		b, err := scriptOf("NewP2PKHFromPubKeyEC", s, err)
 		add("NewP2PKHFromPubKeyEC", b, err)
 	}
+	{
+		// a canonical script handed back in: AddP2PKHOutputFromScript / PayTo
+		for _, name := range []string{"AddP2PKHOutputFromScript", "PayTo"} {
+			tx := bt.NewTx()
+			sc := bscript.NewFromBytes(append([]byte{}, wantScript...))
+			var err error
+			if name == "PayTo" {
+				err = tx.PayTo(sc, 550)
+			} else {
+				err = tx.AddP2PKHOutputFromScript(sc, 550)
+			}
+			b, err := lastOutputScript(name, tx, err, 550)
+			add(name, b, err)
+		}
+	}
 	for _, x := range bs {
 		if x.err != nil {
 			return fmt.Errorf("%s %x mainnet=%v: %v", c.Kind, c.Data, c.Mainnet, x.err)
@@ -364,6 +382,61 @@ func checkDerive(ctx *pbt.Ctx, c Derive) error {
 		addrs, err := sc.Addresses()
 		if err != nil || len(addrs) != 1 || addrs[0] != wantMain {
 			return fmt.Errorf("Addresses() of %x = %v, %v; want [%s] (mainnet rendering of %x)", x.b, addrs, err, wantMain, h)
+		}
+	}
+	// ---- the extended-key constructors: the script pays the key found at the path they report ----
+	if c.Kind == "priv" {
+		master, err := bip32.NewMaster(c.Data, &chaincfg.MainNet)
+		if err != nil {
+			ctx.Label("bip32_master_refused")
+			return nil
+		}
+		for round := 0; round < 2; round++ {
+			var got []byte
+			var path, name string
+			if round == 0 {
+				name = "NewP2PKHFromBip32ExtKey"
+				sc, p, err := bscript.NewP2PKHFromBip32ExtKey(master)
+				got, err = scriptOf(name, sc, err)
+				if err != nil {
+					return err
+				}
+				path = p
+			} else {
+				name = "AddP2PKHOutputFromBip32ExtKey"
+				tx := bt.NewTx()
+				p, err := tx.AddP2PKHOutputFromBip32ExtKey(master, 551)
+				got, err = lastOutputScript(name, tx, err, 551)
+				if err != nil {
+					return err
+				}
+				path = p
+			}
+			// walk the reported path with go-bk's Child (trusted base), element by element
+			k := master
+			for _, el := range strings.Split(path, "/") {
+				hard := strings.HasSuffix(el, "'")
+				n, perr := strconv.ParseUint(strings.TrimSuffix(el, "'"), 10, 32)
+				if perr != nil {
+					return fmt.Errorf("%s reports derivation path %q, element %q is not a number", name, path, el)
+				}
+				if hard {
+					n += 1 << 31
+				}
+				k, err = k.Child(uint32(n))
+				if err != nil {
+					return fmt.Errorf("harness: cannot walk reported path %q: %v", path, err)
+				}
+			}
+			pk, err := k.ECPubKey()
+			if err != nil {
+				return fmt.Errorf("harness: no public key at %q: %v", path, err)
+			}
+			wantS := ref.P2PKHScript(ref.Hash160(pk.SerialiseCompressed()))
+			if !bytes.Equal(got, wantS) {
+				return fmt.Errorf("%s returned script %x with path %q; the key at that path gives %x", name, got, path, wantS)
+			}
+			ctx.Label("bip32_constructor_checked")
 		}
 	}
 	return nil
